@@ -286,7 +286,9 @@ func pipelineSetup(s *rt.Sim, tier string) func() {
 			rt.Violate("C42/stop-hangs", "%s: Stop had not returned after 2 simulated minutes", desc)
 			return
 		}
-		sleep(2 * time.Second)
+		for i := 0; i < 300 && !(resultsClosed && errorsClosed); i++ {
+			sleep(200 * time.Millisecond) // the drainers themselves may be stalled
+		}
 		if !resultsClosed || !errorsClosed {
 			rt.Violate("C42/channels-not-closed", "%s: after Stop, Results closed=%v Errors closed=%v", desc, resultsClosed, errorsClosed)
 			return
